@@ -413,12 +413,17 @@ class ProdParser:
                     if next_[1] in until:
                         # omit S as e.g. ``,`` has been found
                         yield next_
+                        break
                     elif next_[0] == self.types.COMMENT:
                         # pass COMMENT
                         yield next_
                     else:
                         yield token
                         yield next_
+                        if next_[0] != self.types.S:
+                            # a real token has been passed on: S removal
+                            # must not go on inside e.g. a following function
+                            break
 
             elif token[0] == self.types.COMMENT:
                 # pass COMMENT
